@@ -13,6 +13,9 @@
 (* walk different traces in parallel and the run has exactly N + 1         *)
 (* distinct states.                                                        *)
 (*                                                                         *)
+(* An event of kind "call" is a whole load observed from outside (no      *)
+(* gating): the state is re-anchored and only the property is judged.     *)
+(*                                                                         *)
 (* Verdicts are total.  For every event                                    *)
 (*   - if the step is a step of DatasetCache (the action enabled at the    *)
 (*     reported boundary, with a successor that agrees with everything     *)
@@ -102,7 +105,13 @@ Reanchor(e) ==
        /\ UNCHANGED <<mem, pend>>
        /\ act' = <<"Drift", p, e.g>>
 
-Known(e) == /\ e.k \in {"step", "crash", "probe"}
+\* a whole sequential load recorded as one event (registry-level pairs): what a healthy load must deliver
+CallOK(e) == LET d == cfg[e.p].d
+             IN /\ e.r = Data(d, "good")
+                /\ e.s[d] = Data(d, "good")
+                /\ (e.o = "") = (slot[SlotOf[d]][1] = "data")
+
+Known(e) == /\ e.k \in {"step", "crash", "probe", "call"}
             /\ e.p \in All
             /\ e.k = "probe" => e.d \in Datasets
 
@@ -118,6 +127,8 @@ TraceNext ==
        /\ LET e == Trace[l + 1]
           IN IF ~Known(e)
              THEN drift' = {"machinery.unknown_event"} /\ UNCHANGED vars
+             ELSE IF e.k = "call"
+             THEN Reanchor(e) /\ drift' = (IF CallOK(e) THEN {} ELSE {"impl.call"})
              ELSE \/ Bound(e) /\ drift' = {}
                   \/ ~ENABLED Bound(e) /\ Reanchor(e)
                      /\ drift' = IF e.pc = "died" THEN {"machinery.loader_died"} ELSE {"impl.step"}
